@@ -20,9 +20,9 @@ Section Sign.
   Definition untag (s : sg) : sg := {| body := body s; tag := None |}.
 
   (* Input.verify including its side effect: keys.verify(hash, sig, key) assigns sig.public_key = key before
-     checking, so every signature ends up tagged with the last key it was tried against; the "previous
-     signature" retry works on a deepcopy and leaves no trace. Returns (verdict, signatures afterwards). *)
-  Fixpoint lib_verify_run (keys : list Z) (prev : option B) (sigs : list sg) (need : nat) : bool * list sg :=
+     checking, so every signature ends up tagged with the last key it was tried against.
+     Returns (verdict, signatures afterwards). *)
+  Fixpoint lib_verify_run (keys : list Z) (sigs : list sg) (need : nat) : bool * list sg :=
     match need with
     | O => (true, sigs)
     | S need' =>
@@ -33,13 +33,8 @@ Section Sign.
         | [] => (false, [])
         | s :: ss =>
           if sv (body s) k then
-            let (r, l) := lib_verify_run ks (Some (body s)) ss need' in (r, retag s k :: l)
-          else
-            lib_verify_run ks prev (retag s k :: ss)
-              match prev with
-              | Some p => if sv p k then need' else need
-              | None => need
-              end
+            let (r, l) := lib_verify_run ks ss need' in (r, retag s k :: l)
+          else lib_verify_run ks (retag s k :: ss) need
         end
       end
     end.
@@ -47,7 +42,7 @@ Section Sign.
   Definition lib_verify_input_run (keys : list Z) (sigs : list sg) (m : nat) : bool * list sg :=
     match sigs with
     | [] => (false, [])
-    | _ => lib_verify_run keys None sigs m
+    | _ => lib_verify_run keys sigs m
     end.
 
   (* ---------- Transaction.sign, one input ---------- *)
@@ -69,7 +64,7 @@ Section Sign.
   (*  for key in tid_keys:
           if key.public_byte not in pub_key_list:
               if fail_on_unknown_key: raise TransactionError  else: continue
-          if not replace_signatures and key in [x.public_key for x in signatures]: break
+          if not replace_signatures and key in [x.public_key for x in signatures]: continue   # fix C02-3 (was: break)
           sig = sign(txid, key); sig_domain[pub_key_list.index(key.public_byte)] = sig; n_signs += 1     *)
   Fixpoint lib_sign_new (pubs : list Z) (old : list sg) (replace fail_unknown : bool) (signers : list Z)
            (dom : list (option sg)) (n_signs : nat) : option (list (option sg) * nat) :=
@@ -79,7 +74,7 @@ Section Sign.
       match index_of k pubs with
       | None => if fail_unknown then None else lib_sign_new pubs old replace fail_unknown rest dom n_signs
       | Some pos =>
-        if negb replace && existsb (tag_is k) old then Some (dom, n_signs)
+        if negb replace && existsb (tag_is k) old then lib_sign_new pubs old replace fail_unknown rest dom n_signs
         else lib_sign_new pubs old replace fail_unknown rest
                (set_nth pos (Some {| body := mk k; tag := Some k |}) dom) (S n_signs)
       end
@@ -144,7 +139,7 @@ Section Sign.
 
   Inductive sign_result :=
   | SignRaise (code : Z)              (* 1 TransactionError (unknown key), 2 ValueError (tag not in key list) *)
-  | SignNothing                       (* n_signs = 0: break out of the loop over inputs *)
+  | SignNothing                       (* n_signs = 0: this input is left as it is *)
   | SignDone (sigs : list sg).
 
   Definition lib_sign_input (pubs : list Z) (old : list sg) (replace fail_unknown : bool) (signers : list Z)
@@ -178,14 +173,16 @@ Fixpoint dedup_keys (seen l : list Z) : list Z :=
 (* ---------- whole transactions: each input has its own digest, hence its own relation ---------- *)
 Section Tx.
   Context {B : Type}.
-  Record sinput := { si_keys : list Z; si_m : nat; si_sigs : list (sg B); si_valid : option bool; si_hash_ok : bool }.
+  Record sinput := { si_segwit : bool; si_keys : list Z; si_m : nat; si_sigs : list (sg B); si_valid : option bool;
+                     si_hash_ok : bool }.
   Variable svi : nat -> B -> Z -> bool.
   Variable mki : nat -> Z -> B.
 
   Definition with_sigs (x : sinput) (l : list (sg B)) : sinput :=
-    {| si_keys := si_keys x; si_m := si_m x; si_sigs := l; si_valid := si_valid x; si_hash_ok := si_hash_ok x |}.
+    {| si_segwit := si_segwit x; si_keys := si_keys x; si_m := si_m x; si_sigs := l; si_valid := si_valid x; si_hash_ok := si_hash_ok x |}.
 
-  (*  for tid in tids: ... if not n_signs: break ... ; an exception leaves the inputs before tid updated *)
+  (*  for tid in tids: ... if not n_signs: continue  (fix C02-4, was: break) ... ;
+      an exception leaves the inputs before tid updated *)
   Fixpoint lib_sign_tx_from (i : nat) (ins : list sinput) (replace fail_unknown : bool) (signers : list Z)
     : list sinput * Z :=
     match ins with
@@ -193,7 +190,8 @@ Section Tx.
     | x :: r =>
       match lib_sign_input (mki i) (si_keys x) (si_sigs x) replace fail_unknown signers with
       | SignRaise c => (x :: r, c)
-      | SignNothing => (x :: r, 0%Z)
+      | SignNothing =>
+        let (r', c) := lib_sign_tx_from (S i) r replace fail_unknown signers in (x :: r', c)
       | SignDone l =>
         let (r', c) := lib_sign_tx_from (S i) r replace fail_unknown signers in (with_sigs x l :: r', c)
       end
@@ -220,8 +218,11 @@ Section Tx.
     | Some t => lib_sign_tx_at 0 t ins replace fail_unknown signers
     end.
 
-  (* Transaction.verify with its effects: Input.valid is set to True on success and left as it was on
-     failure; inputs after the first failing one are not visited *)
+  (* Transaction.verify with its effects (after fix C02-1): every Input.valid is reset to None first; the
+     inputs are visited in order up to the first failing one; a visited input gets valid = True / False *)
+  Definition set_valid (v : option bool) (x : sinput) : sinput :=
+    {| si_segwit := si_segwit x; si_keys := si_keys x; si_m := si_m x; si_sigs := si_sigs x; si_valid := v; si_hash_ok := si_hash_ok x |}.
+
   Fixpoint lib_tx_verify_run_from (i : nat) (ins : list sinput) : bool * list sinput :=
     match ins with
     | [] => (true, [])
@@ -231,15 +232,22 @@ Section Tx.
         let (ok, l) := lib_verify_input_run (svi i) (si_keys x) (si_sigs x) (si_m x) in
         if ok then
           let (b, r') := lib_tx_verify_run_from (S i) r in
-          (b, {| si_keys := si_keys x; si_m := si_m x; si_sigs := l; si_valid := Some true;
-                 si_hash_ok := si_hash_ok x |} :: r')
-        else (false, with_sigs x l :: r)
+          (b, set_valid (Some true) (with_sigs x l) :: r')
+        else (false, set_valid (Some false) (with_sigs x l) :: r)
     end.
-  Definition lib_tx_verify_run (ins : list sinput) : bool * list sinput := lib_tx_verify_run_from 0 ins.
+  Definition lib_tx_verify_run (ins : list sinput) : bool * list sinput :=
+    lib_tx_verify_run_from 0 (map (set_valid None) ins).
 
-  Definition lib_roundtrip_input (x : sinput) : sinput :=
-    {| si_keys := si_keys x; si_m := si_m x; si_sigs := lib_roundtrip_sigs (si_m x) (si_sigs x);
-       si_valid := None; si_hash_ok := si_hash_ok x |}.
+  (* the copy obtained by Transaction.parse(t.raw()).  In a transaction serialized in segwit form (some input
+     is segwit) Input.parse classes every input with an empty unlocking script as segwit; a parsed segwit
+     input without witness has no script code: signature_segwit raises "Redeem script missing" and
+     Transaction.verify returns False before Input.verify is reached *)
+  Definition lib_roundtrip_input (tx_segwit : bool) (x : sinput) : sinput :=
+    let l := lib_roundtrip_sigs (si_m x) (si_sigs x) in
+    {| si_segwit := si_segwit x; si_keys := si_keys x; si_m := si_m x; si_sigs := l; si_valid := None;
+       si_hash_ok := si_hash_ok x && (negb tx_segwit || match l with [] => false | _ => true end) |}.
+  Definition lib_roundtrip_tx (ins : list sinput) : list sinput :=
+    map (lib_roundtrip_input (existsb si_segwit ins)) ins.
 
   (* the view Transaction.verify decides on (ties this file to Model/VerifyInput.v) *)
   Definition view (x : sinput) : @vinput B Z :=
@@ -324,12 +332,12 @@ Definition run_op (st : cstate) (o : op) : cstate * obs :=
     let (b, ins') := lib_tx_verify_run svi (cs_ins st) in
     ({| cs_ins := ins'; cs_epochs := es |}, ObsVerify b (map (@si_valid cbody) ins') (matrix_of es ins'))
   | ORound =>
-    let copy := map (@lib_roundtrip_input cbody) (cs_ins st) in
+    let copy := lib_roundtrip_tx (cs_ins st) in
     let (b, ins') := lib_tx_verify_run svi copy in
     (st, ObsVerify b (map (@si_valid cbody) ins') (matrix_of es ins'))
   | OEpochs es' => ({| cs_ins := cs_ins st; cs_epochs := es' |}, ObsNone)
   | OHashOk i b =>
-    ({| cs_ins := update_at i (fun x => {| si_keys := si_keys x; si_m := si_m x; si_sigs := si_sigs x;
+    ({| cs_ins := update_at i (fun x => {| si_segwit := si_segwit x; si_keys := si_keys x; si_m := si_m x; si_sigs := si_sigs x;
                                             si_valid := si_valid x; si_hash_ok := b |}) (cs_ins st);
         cs_epochs := es |}, ObsNone)
   | ODrop i pos =>
@@ -366,9 +374,36 @@ Fixpoint run_ops (st : cstate) (ops : list op) : list obs :=
   | o :: r => let (st', ob) := run_op st o in ob :: run_ops st' r
   end.
 
-Definition init_input (keys : list Z) (m : nat) : @sinput cbody :=
-  {| si_keys := dedup_keys [] keys; si_m := m; si_sigs := []; si_valid := None; si_hash_ok := true |}.
+Definition init_input (segwit : bool) (keys : list Z) (m : nat) : @sinput cbody :=
+  {| si_segwit := segwit; si_keys := dedup_keys [] keys; si_m := m; si_sigs := []; si_valid := None; si_hash_ok := true |}.
 
-Definition run_scenario (inputs : list (list Z * nat)) (ops : list op) : list obs :=
-  run_ops {| cs_ins := map (fun km => init_input (fst km) (snd km)) inputs;
+Definition run_scenario (inputs : list (bool * list Z * nat)) (ops : list op) : list obs :=
+  run_ops {| cs_ins := map (fun skm => init_input (fst (fst skm)) (snd (fst skm)) (snd skm)) inputs;
              cs_epochs := repeat 0%Z (length inputs) |} ops.
+
+(* ---------- sign_then_verify, as a statement (its general proof is not part of this development; the cases
+   proved are Proofs/SignPlace.v: sign_fresh_in_order / sign_fresh_then_verify) ----------
+   Any sequence of sign() calls without replace_signatures on an input with pairwise distinct keys, where a
+   key's own signature verifies and verifies for no other listed key: the input verifies exactly when at least
+   m distinct listed keys were among the signers. *)
+Fixpoint lib_sign_calls {B : Type} (mk : Z -> B) (pubs : list Z) (sigs : list (sg B)) (calls : list (list Z))
+  : list (sg B) :=
+  match calls with
+  | [] => sigs
+  | c :: r =>
+    lib_sign_calls mk pubs
+      match lib_sign_input mk pubs sigs false false c with
+      | SignDone l => l
+      | _ => sigs
+      end r
+  end.
+
+Definition signed_keys (pubs : list Z) (calls : list (list Z)) : list Z :=
+  filter (fun k => existsb (existsb (Z.eqb k)) calls) pubs.
+
+Definition sign_then_verify_statement : Prop :=
+  forall (B : Type) (sv : B -> Z -> bool) (mk : Z -> B),
+    (forall k, sv (mk k) k = true) -> (forall k k', sv (mk k) k' = true -> k = k') ->
+    forall pubs m calls, NoDup pubs -> (1 <= m)%nat ->
+      fst (lib_verify_input_run sv pubs (lib_sign_calls mk pubs [] calls) m)
+      = Nat.leb m (length (signed_keys pubs calls)).
